@@ -1,125 +1,167 @@
 /-
 Bridge lemmas for C06 (ii)–(iv): the control skeletons REGENERATED from /repo (`Pandora.Gen.AggQ`, see
-gen/area_aggq.go for what a skeleton keeps) are the ones the transition systems `Model.AggQueue`,
+gen/area_aggq.go for what a skeleton keeps; function-local names — parameters, receivers, locals, labels — are
+`$0`, `$1` … in order of first appearance, so renaming a local does not matter) are the ones the transition systems `Model.AggQueue`,
 `Model.C06Pool` and `Model.CliShutdown` were written from. A change of the statement structure of any of
 these functions (a select case, the order of the deferred flush and close, the drain loop, the drop counter,
 the await loop of the pool, the signal branch …) breaks one of these lemmas; then the models have to be
 re-read against the code. The file sink's open flags are compared as numbers.
 -/
 import Pandora.Gen.AggQ
+import Pandora.Model.C06Engine
 
 namespace Pandora.Bridge.AggQ
 open Pandora.Gen.AggQ
 
 /-- `Reporter.Report`: one non-blocking send; `default:` is the drop — model `step (.report r)`, kind `.encoder` -/
 def reporterReportExpected : String :=
-  "func(s core.Sample) {select{case a.Incomming <- s:{} default:{a.dropSample}}}"
+  "func($0 core.Sample) {select{case $1.Incomming <- $0:{} default:{$1.dropSample}}}"
 theorem reporterReport_eq : reporterReport = reporterReportExpected := rfl
 
 /-- `dropSample`: one `samplesDropped.Inc()` per dropped sample — model `droppedCount + 1` -/
 def reporterDropSampleExpected : String :=
-  "func(s core.Sample) {a.samplesDropped.Inc coreutil.ReturnSampleIfBorrowed}"
+  "func($0 core.Sample) {$1.samplesDropped.Inc coreutil.ReturnSampleIfBorrowed}"
 theorem reporterDropSample_eq : reporterDropSample = reporterDropSampleExpected := rfl
 
 /-- `DroppedErr`: nil iff the counter is 0, else the counter — model `droppedErr` -/
 def reporterDroppedErrExpected : String :=
-  "func() error {a.samplesDropped.Load if(dropped == 0){return(nil)} return(&SomeSamplesDropped{dropped})}"
+  "func() error {$0.samplesDropped.Load if($1 == 0){return(nil)} return(&SomeSamplesDropped{$1})}"
 theorem reporterDroppedErr_eq : reporterDroppedErr = reporterDroppedErrExpected := rfl
 
 /-- the text of the error: `<N> samples were dropped` -/
 def droppedErrorTextExpected : String :=
-  "func() string {return(fmt.Sprintf(\"%v samples were dropped\", err.Dropped))}"
+  "func() string {return(fmt.Sprintf(\"%v samples were dropped\", $0.Dropped))}"
 theorem droppedErrorText_eq : droppedErrorText = droppedErrorTextExpected := rfl
 
 /-- the queue is a channel of capacity `SampleQueueSize` — model `cfg.cap` -/
 def newReporterExpected : String :=
-  "func(conf ReporterConfig) *Reporter {return(&Reporter{ Incomming: make(chan core.Sample, conf.SampleQueueSize), })}"
+  "func($0 ReporterConfig) *Reporter {return(&Reporter{ Incomming: make(chan core.Sample, $0.SampleQueueSize), })}"
 theorem newReporter_eq : newReporter = newReporterExpected := rfl
 
 /-- `dataSinkAggregator.Run`: deferred [sink.Close, DroppedErr] registered BEFORE the deferred encoder Close/Flush (so it runs after it); main select {sample | flushTick (flush only when nothing was flushed since the last tick) | ctx.Done → leave the loop}; drain loop {sample | default → return nil} — model `.recv`, `.tick`, `.seeCancel`, `.drain` -/
 def encoderRunExpected : String :=
-  "func(ctx context.Context, deps core.AggregatorDeps) (err error) {set(a.AggregatorDeps=deps) a.conf.Sink.OpenSink if(err != nil){return()} defer{sink.Close a.DroppedErr} a.newEncoder defer{if(ok){encoder.Close return()} encoder.Flush} if(a.conf.FlushInterval > 0){time.NewTicker} HandleLoop:for{select{case sample := <-a.Incomming:{a.handleSample if(err != nil){return()}} case <-flushTick:{if(previousFlushes == flushes){encoder.Flush if(err != nil){return()}}} case <-ctx.Done():{break HandleLoop}}} for{select{case sample := <-a.Incomming:{a.handleSample if(err != nil){return()}} default:{return(nil)}}}}"
+  "func($0 context.Context, $1 core.AggregatorDeps) ($2 error) {set($3.AggregatorDeps=$1) $3.conf.Sink.OpenSink if($2 != nil){return()} defer{$4.Close $3.DroppedErr} $3.newEncoder defer{if($5){$6.Close return()} $7.Flush} if($3.conf.FlushInterval > 0){time.NewTicker} $8:for{select{case $9 := <-$3.Incomming:{$3.handleSample if($2 != nil){return()}} case <-$10:{if($11 == $12){$7.Flush if($2 != nil){return()}}} case <-$0.Done():{break $8}}} for{select{case $13 := <-$3.Incomming:{$3.handleSample if($2 != nil){return()}} default:{return(nil)}}}}"
 theorem encoderRun_eq : encoderRun = encoderRunExpected := rfl
 
 /-- `handleSample`: Encode, error → return -/
 def encoderHandleSampleExpected : String :=
-  "func(enc SampleEncoder, sample core.Sample) error {enc.Encode if(err != nil){return(errors.WithMessage(err, \"sample encode failed\"))} coreutil.ReturnSampleIfBorrowed return(nil)}"
+  "func($0 SampleEncoder, $1 core.Sample) error {$0.Encode if($2 != nil){return(errors.WithMessage($2, \"sample encode failed\"))} coreutil.ReturnSampleIfBorrowed return(nil)}"
 theorem encoderHandleSample_eq : encoderHandleSample = encoderHandleSampleExpected := rfl
 
 /-- `jsonEncoder.Encode`: the value, then the raw line terminator -/
 def jsonEncodeExpected : String :=
-  "func(s core.Sample) error {e.WriteVal e.WriteRaw return(e.Error)}"
+  "func($0 core.Sample) error {$1.WriteVal $1.WriteRaw return($1.Error)}"
 theorem jsonEncode_eq : jsonEncode = jsonEncodeExpected := rfl
 
 /-- `jsonEncoder.Flush`: the jsoniter stream, then the bufio layer -/
 def jsonFlushExpected : String :=
-  "func() error {e.Stream.Flush e.buf.Flush return(err)}"
+  "func() error {$0.Stream.Flush $0.buf.Flush return($1)}"
 theorem jsonFlush_eq : jsonFlush = jsonFlushExpected := rfl
 
 /-- jsonlines is the encoder aggregator over the JSON encoder -/
 def newJSONLinesAggregatorExpected : String :=
-  "func(conf JSONLineAggregatorConfig) core.Aggregator {return(NewEncoderAggregator(newEncoder, conf.EncoderAggregatorConfig))}"
+  "func($0 JSONLineAggregatorConfig) core.Aggregator {return(NewEncoderAggregator($1, $0.EncoderAggregatorConfig))}"
 theorem newJSONLinesAggregator_eq : newJSONLinesAggregator = newJSONLinesAggregatorExpected := rfl
 
 /-- stream over a bufio.Writer -/
 def newJSONEncoderExpected : String :=
-  "func(w io.Writer, conf JSONLineEncoderConfig) SampleEncoder {apiConfig.Froze conf.BufferSizeOrDefault bufio.NewWriterSize conf.BufferSizeOrDefault jsoniter.NewStream return(&jsonEncoder{stream, buf})}"
+  "func($0 io.Writer, $1 JSONLineEncoderConfig) SampleEncoder {$2.Froze $1.BufferSizeOrDefault bufio.NewWriterSize $1.BufferSizeOrDefault jsoniter.NewStream return(&jsonEncoder{$3, $4})}"
 theorem newJSONEncoder_eq : newJSONEncoder = newJSONEncoderExpected := rfl
 
 /-- `fileSink.OpenSink` -/
 def fileOpenSinkExpected : String :=
-  "func() (wc io.WriteCloser, err error) {return(s.fs.OpenFile(s.conf.Path, os.O_WRONLY|os.O_CREATE|os.O_TRUNC, 0644))}"
+  "func() ($0 io.WriteCloser, $1 error) {return($2.fs.OpenFile($2.conf.Path, os.O_WRONLY|os.O_CREATE|os.O_TRUNC, 0644))}"
 theorem fileOpenSink_eq : fileOpenSink = fileOpenSinkExpected := rfl
-
-/-- `phoutAggregator.Run`: deferred Flush then Close; select {sample (+ flush if the 1 s ticker fired) | time.After flush | ctx.Done → drain until `default`} — model kind `.phout` -/
-def phoutRunExpected : String :=
-  "func(ctx context.Context, _ core.AggregatorDeps) error {time.NewTicker defer{a.writer.Flush a.file.Close} loop:for{select{case r := <-a.sink:{a.handle if(err != nil){return(err)} select{case <-shouldFlush.C:{a.writer.Flush} default:{}}} case <-time.After(1 * time.Second):{a.writer.Flush} case <-ctx.Done():{for{select{case r := <-a.sink:{a.handle if(err != nil){return(err)}} default:{break loop}}}}}} return(nil)}"
-theorem phoutRun_eq : phoutRun = phoutRunExpected := rfl
-
-/-- `phoutAggregator.Report`: a blocking send -/
-def phoutReportExpected : String :=
-  "func(s *Sample) {send(a.sink)}"
-theorem phoutReport_eq : phoutReport = phoutReportExpected := rfl
-
-/-- `NewPhout`: `fs.Create` (truncates), bufio writer of the configured size -/
-def newPhoutExpected : String :=
-  "func(fs afero.Fs, conf PhoutConfig) (a Aggregator, err error) {if(filename != \"\"){fs.Create} if(err != nil){return()} conf.Buffer.BufferSizeOrDefault bufio.NewWriterSize return()}"
-theorem newPhout_eq : newPhout = newPhoutExpected := rfl
 
 /-- `checkAllInstancesAreFinished`: the guard, close(runRes), toWait--, runCancel — model `PSt.check` -/
 def engineCheckAllFinishedExpected : String :=
-  "func() {ah.isStartFinished let allFinished=(ah.isStartFinished() && ah.awaitedInstances >= ah.startedInstances) if(!allFinished){return()} close(ah.runRes) recv(ah.runRes) if(ok){panic} set(ah.runRes=nil) ah.toWait-- ah.runCancel}"
+  "func() {$0.isStartFinished let $1=($0.isStartFinished() && $0.awaitedInstances >= $0.startedInstances) if(!$1){return()} close($0.runRes) recv($0.runRes) if($2){panic} set($0.runRes=nil) $0.toWait-- $0.runCancel}"
 theorem engineCheckAllFinished_eq : engineCheckAllFinished = engineCheckAllFinishedExpected := rfl
 
 /-- `isStartFinished` is `startRes == nil` -/
 def engineIsStartFinishedExpected : String :=
-  "func() bool {return(ah.startRes == nil)}"
+  "func() bool {return($0.startRes == nil)}"
 theorem engineIsStartFinished_eq : engineIsStartFinished = engineIsStartFinishedExpected := rfl
 
 /-- `awaitRun`: loop while toWait > 0 over the four result channels; start and run results call the check — model `.awaitProv/.awaitAgg/.awaitStart/.awaitInst` -/
 def engineAwaitRunExpected : String :=
-  "func() {for(ah.toWait > 0){select{case err := <-ah.providerErr:{set(ah.providerErr=nil) ah.toWait-- errutil.IsCtxError if(!errutil.IsCtxError(ah.runCtx, err)){ah.onErrAwaited}} case err := <-ah.aggregatorErr:{set(ah.aggregatorErr=nil) ah.toWait-- errutil.IsCtxError if(!errutil.IsCtxError(ah.runCtx, err)){ah.onErrAwaited}} case res := <-ah.startRes:{set(ah.startRes=nil) ah.toWait-- set(ah.startedInstances=res.Started) errutil.IsCtxError if(!errutil.IsCtxError(ah.instanceStartCtx, res.Err)){ah.onErrAwaited} ah.checkAllInstancesAreFinished} case res := <-ah.runRes:{ah.awaitedInstances++ if(res.Err == outOfAmmoErr){ah.isStartFinished if(!ah.isStartFinished()){ah.instanceStartCancel}}else{errutil.IsCtxError if(!errutil.IsCtxError(ah.runCtx, res.Err)){ah.onErrAwaited}} ah.checkAllInstancesAreFinished}}}}"
+  "func() {for($0.toWait > 0){select{case $1 := <-$0.providerErr:{set($0.providerErr=nil) $0.toWait-- errutil.IsCtxError($0.runCtx) if(!errutil.IsCtxError($0.runCtx, $1)){$0.onErrAwaited}} case $2 := <-$0.aggregatorErr:{set($0.aggregatorErr=nil) $0.toWait-- errutil.IsCtxError($0.runCtx) if(!errutil.IsCtxError($0.runCtx, $2)){$0.onErrAwaited}} case $3 := <-$0.startRes:{set($0.startRes=nil) $0.toWait-- set($0.startedInstances=$3.Started) errutil.IsCtxError($0.instanceStartCtx) if(!errutil.IsCtxError($0.instanceStartCtx, $3.Err)){$0.onErrAwaited} $0.checkAllInstancesAreFinished} case $4 := <-$0.runRes:{$0.awaitedInstances++ if($4.Err == outOfAmmoErr){$0.isStartFinished if(!$0.isStartFinished()){$0.instanceStartCancel}}else{errutil.IsCtxError($0.runCtx) if(!errutil.IsCtxError($0.runCtx, $4.Err)){$0.onErrAwaited}} $0.checkAllInstancesAreFinished}}}}"
 theorem engineAwaitRun_eq : engineAwaitRun = engineAwaitRunExpected := rfl
 
 /-- `awaitRunAsync`: after awaitRun: close(awaitErr), onWaitDone — model `.waitDone` -/
 def engineAwaitRunAsyncExpected : String :=
-  "func(runHandle *poolAsyncRunHandle) <-chan error {p.newAwaitRunHandle go{defer{close(ah.awaitErr) if(p.onWaitDone != nil){p.onWaitDone}} ah.awaitRun} return(awaitErr)}"
+  "func($0 *poolAsyncRunHandle) <-chan error {$1.newAwaitRunHandle go{defer{close($2.awaitErr) if($1.onWaitDone != nil){$1.onWaitDone}} $2.awaitRun} return($3)}"
 theorem engineAwaitRunAsync_eq : engineAwaitRunAsync = engineAwaitRunAsyncExpected := rfl
 
 /-- `Engine.Wait` waits for every pool's onWaitDone -/
 def engineWaitExpected : String :=
-  "func() {e.wait.Wait}"
+  "func() {$0.wait.Wait}"
 theorem engineWait_eq : engineWait = engineWaitExpected := rfl
+
+/-- `Engine.Run`: one goroutine per pool runs `pool.Run(ctx)` and offers its result on `runRes` (or drops it when the engine's context is done); the loop receives exactly `len(Pools)` results, returns at the first non-nil one or when the context is done, and `nil` only after all of them were nil — model `C06Engine` `.poolSend/.engRecv/.engCtxDone` -/
+def engineRunExpected : String :=
+  "func($0 context.Context) error {ctx($0, $1 <- $0) defer{$1} range($2.config.Pools){if($3.ID == \"\"){set($3.ID=fmt.Sprintf(\"pool_%v\", $4))} $2.wait.Add newPool go{$5.Run($0) select{case $6 <- poolRunResult{ID: $5.ID, Err: $7}:{} case <-$0.Done():{}}}} for($8 < len($2.config.Pools); $8++){select{case $9 := <-$6:{if($9.Err != nil){select{case <-$0.Done():{return($0.Err())} default:{}} return(errors.WithMessage($9.Err, fmt.Sprintf(\"%q pool run failed\", $9.ID)))}} case <-$0.Done():{return($0.Err())}}} return(nil)}"
+theorem engineRun_eq : engineRun = engineRunExpected := rfl
+
+/-- `instancePool.Run`: after `awaitRunAsync` the only `return nil` is under `case err, ok := <-awaitErr` with `!ok` — the channel was closed, which `awaitRunAsync` does after `awaitRun` returned; the context case returns `ctx.Err()` — model `C06Engine` `.poolRetClosed/.poolRetErr/.poolRetCtx` -/
+def enginePoolRunExpected : String :=
+  "func($0 context.Context) error {ctx($0, $1 <- $0) defer{$1} $2.warmUpGun($0) if($3 != nil){$2.onWaitDone return($3)} $2.runAsync($0) if($4 != nil){if($2.onWaitDone != nil){$2.onWaitDone} return($4)} $2.awaitRunAsync select{case <-$0.Done():{return($0.Err())} case $5, $6 := <-$7:{if($6){return($5)} return(nil)}}}"
+theorem enginePoolRun_eq : enginePoolRun = enginePoolRunExpected := rfl
+
+/-- `runAsync`: `runCtx` is a child of the pool context, `instanceStartCtx` a child of `runCtx`; provider and aggregator run under `runCtx`, `startInstances` gets (`instanceStartCtx`, `runCtx`); the handle keeps both cancel functions — model `C06Engine.cancelledBy` -/
+def engineRunAsyncExpected : String :=
+  "func($0 context.Context) (*poolAsyncRunHandle, error) {ctx($1, $2 <- $0) ctx($3, $4 <- $1) $5.buildNewInstanceSchedule($3, $4) if($6 != nil){return(nil, $6)} go{$5.Provider.Run($1) send($7)} go{$5.Aggregator.Run($1) send($8)} go{$5.startInstances($3, $1) send($9)} return(&poolAsyncRunHandle{ poolCtx: $0, runCtx: $1, runCancel: $2, instanceStartCtx: $3, instanceStartCancel: $4, providerErr: $7, aggregatorErr: $8, runRes: $10, startRes: $9, }, nil)}"
+theorem engineRunAsync_eq : engineRunAsync = engineRunAsyncExpected := rfl
+
+/-- `startInstances`: instances are created under the second context (`runCtx`), every instance goroutine sends its `Run` result on `runRes` after `Run` returned, `started` counts the goroutines — model `C06Pool` `.launch/.finish/.startDone` -/
+def engineStartInstancesExpected : String :=
+  "func( $0, $1 context.Context, $2 func() (core.Schedule, error), $3 chan<- instanceRunResult) ($4 int, $5 error) {coreutil.NewWaiter $6.Wait($0) if(!$7){$0.Err return()} newInstance($1) if($5 != nil){return()} $4++ go{defer{$8.Close} return($8.Run($1)) send($3)} for($6.Wait($0); $4++){go{runNewInstance($1) send($3)}} $0.Err return()}"
+theorem engineStartInstances_eq : engineStartInstances = engineStartInstancesExpected := rfl
+
+/-- `onErrAwaited`: the error is handed to `pool.Run` or dropped when the pool's context is done; it never closes anything -/
+def engineOnErrAwaitedExpected : String :=
+  "func($0 error) {select{case $1.awaitErr <- $0:{} case <-$1.poolCtx.Done():{$1.poolCtx.Err}}}"
+theorem engineOnErrAwaited_eq : engineOnErrAwaited = engineOnErrAwaitedExpected := rfl
+
+/-- `runNewInstance`: `instance.Run(ctx)` synchronously, gun closed afterwards -/
+def engineRunNewInstanceExpected : String :=
+  "func($0 context.Context, $1 *zap.Logger, $2 string, $3 int, $4 instanceDeps) error {newInstance($0) if($5 != nil){return($5)} defer{$6.Close} return($6.Run($0))}"
+theorem engineRunNewInstance_eq : engineRunNewInstance = engineRunNewInstanceExpected := rfl
+
+/-- `instance.Run`: `gun.Shoot` and the discarded-shoot `aggregator.Report` are plain calls of the loop: `Run` returns only after the last of them returned — the reading behind `C06Pool` `.report` being enabled only while the instance is running -/
+def engineInstanceRunExpected : String :=
+  "func($0 context.Context) ($1 error) {defer{if($2 != nil){errors.Errorf} $3.metrics.InstanceFinish.Add} $3.metrics.InstanceStart.Add coreutil.NewWaiter for(!$4.IsFinished($0)){$3.provider.Acquire if(!$5){return(outOfAmmoErr)} defer{$3.provider.Release} $4.Wait($0) if(!$4.Wait($0)){return(nil)} $4.IsSlowDown($0) if(!$3.discardOverflow || !$4.IsSlowDown($0)){$3.metrics.Request.Add $3.gun.Shoot $3.metrics.Response.Add}else{netsample.DiscardedShootSample $3.aggregator.Report} return(nil) if($6 != nil){return($6)}} return($0.Err())}"
+theorem engineInstanceRun_eq : engineInstanceRun = engineInstanceRunExpected := rfl
+
+/-- `phoutAggregator.Run`: deferred Flush then Close; select {sample (+ flush if the 1 s ticker fired) | time.After flush | ctx.Done → drain until `default`} — model kind `.phout` -/
+def phoutRunExpected : String :=
+  "func($0 context.Context, $1 core.AggregatorDeps) error {time.NewTicker defer{$2.writer.Flush $2.file.Close} $3:for{select{case $4 := <-$2.sink:{$2.handle if($5 != nil){return($5)} select{case <-$6.C:{$2.writer.Flush} default:{}}} case <-time.After(1 * time.Second):{$2.writer.Flush} case <-$0.Done():{for{select{case $7 := <-$2.sink:{$2.handle if($8 != nil){return($8)}} default:{break $3}}}}}} return(nil)}"
+theorem phoutRun_eq : phoutRun = phoutRunExpected := rfl
+
+/-- `phoutAggregator.Report`: a blocking send -/
+def phoutReportExpected : String :=
+  "func($0 *Sample) {send($1.sink)}"
+theorem phoutReport_eq : phoutReport = phoutReportExpected := rfl
+
+/-- `NewPhout`: `fs.Create` (truncates), bufio writer of the configured size -/
+def newPhoutExpected : String :=
+  "func($0 afero.Fs, $1 PhoutConfig) ($2 Aggregator, $3 error) {if($4 != \"\"){$0.Create} if($3 != nil){return()} $1.Buffer.BufferSizeOrDefault bufio.NewWriterSize return()}"
+theorem newPhout_eq : newPhout = newPhoutExpected := rfl
 
 /-- `awaitPandoraTermination` — model `CliShutdown.step true` -/
 def cliAwaitTerminationExpected : String :=
-  "func(pandora *engine.Engine, gracefulShutdown func(), errs chan error, log *zap.Logger) {signal.Notify select{case sig := <-sigs:{switch(sig){case syscall.SIGINT:{gracefulShutdown} case syscall.SIGTERM:{gracefulShutdown} default:{exit}} time.After select{case <-timeout:{exit} case sig := <-sigs:{exit} case err := <-errs:{go{pandora.Wait close(waitDone)} select{case <-waitDone:{} case <-timeout:{exit} case sig := <-sigs:{exit}} exit}}} case err := <-errs:{switch(err){case nil:{} case err:{gracefulShutdown time.AfterFunc pandora.Wait exit}}}}}"
+  "func($0 *engine.Engine, $1 func(), $2 chan error, $3 *zap.Logger) {signal.Notify select{case $4 := <-$5:{switch($4){case syscall.SIGINT:{$1} case syscall.SIGTERM:{$1} default:{exit}} time.After select{case <-$6:{exit} case $7 := <-$5:{exit} case $8 := <-$2:{go{$0.Wait close($9)} select{case <-$9:{} case <-$6:{exit} case $10 := <-$5:{exit}} exit}}} case $11 := <-$2:{switch($11){case nil:{} case $11:{$1 time.AfterFunc $0.Wait exit}}}}}"
 theorem cliAwaitTermination_eq : cliAwaitTermination = cliAwaitTerminationExpected := rfl
 
 /-- `runEngine`: `errs <- engine.Run(ctx)` -/
 def cliRunEngineExpected : String :=
-  "func(ctx context.Context, engine *engine.Engine, errs chan error) {context.WithCancel defer{cancel} engine.Run send(errs)}"
+  "func($0 context.Context, $1 *engine.Engine, $2 chan error) {ctx($0, $3 <- $0) defer{$3} $1.Run($0) send($2)}"
 theorem cliRunEngine_eq : cliRunEngine = cliRunEngineExpected := rfl
+
+/-- `ReadConfigAndRunEngine`: the engine runs under the context whose cancel function is handed to `awaitPandoraTermination` as `gracefulShutdown` -/
+def cliReadConfigAndRunEngineExpected : String :=
+  "func() {flag.Args readConfig newLogger startMonitoring defer{$0} newEngineMetrics startReport engine.New ctx($1, $2 <- context.Background()) defer{$2} go{runEngine($1)} awaitPandoraTermination($2)}"
+theorem cliReadConfigAndRunEngine_eq : cliReadConfigAndRunEngine = cliReadConfigAndRunEngineExpected := rfl
 
 /-- the file sink opens write-only, creates, TRUNCATES (a result file never keeps lines of an earlier run), does
 not append; permission 0644 -/
@@ -129,5 +171,33 @@ theorem file_flags :
 
 /-- the pool waits for four results: provider, aggregator, instance start, instance runs -/
 theorem results_to_wait : engineResultsToWait = 4 := by decide
+
+/-- `Engine.Run` awaits one result per pool: the loop runs while `i < len(e.config.Pools)` — model `awaitN = n` -/
+def engineRunLoopBoundExpected : String := "$0 < len($1.config.Pools)"
+theorem engineRunLoopBound_eq : engineRunLoopBound = engineRunLoopBoundExpected := rfl
+
+/-- `instance.Run` starts no goroutine: `gun.Shoot` and `aggregator.Report` are calls of the instance's own
+goroutine, made through the instance's fields -/
+theorem instance_run_synchronous :
+    engineInstanceGoStmts = 0 ∧ engineInstanceCalls.contains "gun.Shoot" = true ∧
+    engineInstanceCalls.contains "aggregator.Report" = true := by decide
+
+open Pandora.Model.C06Engine in
+/-- **who is cancelled by what** (contexts and cancel functions are runAsync's locals, numbered):
+provider and aggregator run under the context the handle keeps as `runCtx`; `startInstances` gets
+(`instanceStartCtx`, `runCtx`); `runCancel` — what `checkAllInstancesAreFinished` calls — cancels the
+aggregator's context; `instanceStartCancel` — called on "out of ammo" while instances are still running, and by the
+shared schedule's finish callback — cancels `instanceStartCtx` ONLY, not the aggregator; a cancel of the pool's
+own context (Engine.Run's cancel, SIGINT/SIGTERM) reaches the aggregator. -/
+theorem ctx_tree :
+    engineAggregatorRunCtx = [engineHandleRunCtx] ∧ engineProviderRunCtx = [engineHandleRunCtx] ∧
+    engineStartInstancesCtx = [engineHandleInstanceStartCtx, engineHandleRunCtx] ∧
+    engineHandlePoolCtx = enginePoolCtxParam ∧
+    (cancelledBy engineCtxDerive engineHandleRunCancel).contains engineHandleRunCtx = true ∧
+    (cancelledBy engineCtxDerive engineHandleRunCancel).contains engineHandleInstanceStartCtx = true ∧
+    cancelledBy engineCtxDerive engineHandleInstanceStartCancel = [engineHandleInstanceStartCtx] ∧
+    (cancelledBy engineCtxDerive engineHandleInstanceStartCancel).contains engineHandleRunCtx = false ∧
+    (doneWith engineCtxDerive enginePoolCtxParam).contains engineHandleRunCtx = true ∧
+    (doneWith engineCtxDerive engineHandleRunCtx).contains enginePoolCtxParam = false := by decide
 
 end Pandora.Bridge.AggQ
